@@ -264,7 +264,9 @@ func (md *DICompileUnit) LLString() string {
 		field = fmt.Sprintf("dwoId: %d", md.DwoID)
 		fields = append(fields, field)
 	}
-	if md.SplitDebugInlining {
+	// Note: LLVM reads an absent splitDebugInlining field as true, thus the
+	// field is printed when false.
+	if !md.SplitDebugInlining {
 		field = fmt.Sprintf("splitDebugInlining: %t", md.SplitDebugInlining)
 		fields = append(fields, field)
 	}
@@ -818,7 +820,9 @@ func (md *DIGlobalVariable) LLString() string {
 		field := fmt.Sprintf("isLocal: %t", md.IsLocal)
 		fields = append(fields, field)
 	}
-	if md.IsDefinition {
+	// Note: LLVM reads an absent isDefinition field as true, thus the field is
+	// printed when false.
+	if !md.IsDefinition {
 		field := fmt.Sprintf("isDefinition: %t", md.IsDefinition)
 		fields = append(fields, field)
 	}
